@@ -89,7 +89,7 @@ pub fn run_line(line: &str) -> String {
         let r = std::panic::catch_unwind(std::panic::AssertUnwindSafe(|| -> Option<String> {
             if let Some(h) = t.strip_prefix("src=") {
                 src = Src::new(unhex(h), frag);
-                return None;
+                return Some("|".to_string());
             }
             if let Some(f) = t.strip_prefix("frag=") {
                 frag = f.parse().unwrap();
